@@ -155,7 +155,7 @@ def _sum_range(rng: ast.Call) -> ast.AST:
 
 @_simplify_math
 def _sum_constants(values: Sequence[ast.AST]) -> ast.AST:
-    expr = " + ".join(core.unparse(node).strip() for node in values)
+    expr = " + ".join(core.unparse(node).strip() for node in values) or "0"
     return core.parse(expr)
 
 
@@ -223,11 +223,11 @@ def simplify_math_iterators(source: str) -> str:
     )
 
     for node in core.walk(root, template):
+        if node.func.id != "sum":
+            continue
         arg = node.args[0]
         if core.match_template(arg, ast.Call(func=ast.Name(id="range"))):
             if any((node is not arg for node in core.walk(arg, (ast.Attribute, ast.Call)))):
-                continue
-            if node.func.id != "sum":
                 continue
             yield node, _sum_range(arg)
 
